@@ -80,6 +80,37 @@ where
     buf
 }
 
+/// Escapes the code units of a string so that it can be printed between `quote` characters
+/// (`"` for string literals and property names, `` ` `` for template literals) and read back
+/// by the lexer as the same string.
+pub(crate) fn escape_string_units(units: &[u16], quote: char) -> String {
+    use std::fmt::Write as _;
+
+    let template = quote == '`';
+    let mut out = String::with_capacity(units.len());
+    let mut chars = char::decode_utf16(units.iter().copied()).peekable();
+    while let Some(r) = chars.next() {
+        match r {
+            Ok('\\') => out.push_str("\\\\"),
+            Ok(c) if c == quote => {
+                out.push('\\');
+                out.push(c);
+            }
+            // a raw carriage return in a template is normalized to a line feed by the lexer
+            Ok('\r') => out.push_str("\\r"),
+            Ok('\n') if !template => out.push_str("\\n"),
+            Ok('\u{2028}') if !template => out.push_str("\\u2028"),
+            Ok('\u{2029}') if !template => out.push_str("\\u2029"),
+            Ok('$') if template && matches!(chars.peek(), Some(Ok('{'))) => out.push_str("\\$"),
+            Ok(c) => out.push(c),
+            Err(e) => {
+                let _ = write!(out, "\\u{:04X}", e.unpaired_surrogate());
+            }
+        }
+    }
+    out
+}
+
 /// Displays the body of a block or statement list.
 ///
 /// This includes the curly braces at the start and end. This will not indent the first brace,
